@@ -771,7 +771,14 @@ class StubsRepresentative(FunctionSpec):
         from .common import KNOWN_SHAPE_SITES, shape_inspection_sites
 
         sites = set(shape_inspection_sites())
-        run.oblige("no_branch_on_child_shape", sites <= KNOWN_SHAPE_SITES, note=str(sorted(sites - KNOWN_SHAPE_SITES)))
+        new = sorted(sites - KNOWN_SHAPE_SITES)
+        if new:
+            # not a violation in itself: the code may inspect its child harmlessly.  What it means is that the templates and
+            # oracle-children proofs no longer cover this code - UNDECIDED; the concretisers then look for a failing input
+            from pyvc.engine import OutOfDialect
+
+            raise OutOfDialect(f"parse()/generate() inspect the shape of a child at a site the proofs do not cover: {new[:4]}")
+        run.oblige("no_branch_on_child_shape", True)
 
 
 class DelegatingGenerate(FunctionSpec):
